@@ -12,6 +12,11 @@ Model/AllocOracle.lean).  All statements are ∀ oracle (any pattern of failing 
   alloc_count_matches    number of allocation requests per helper (compared with the real count by T2)
   script_ledger_ok       for EVERY script and EVERY oracle: after clean-up the trace is accepted by `ledgerOk`
                          (no double free, no free of unallocated, nothing live) — see the `_partial` note below
+  observer_refs_balanced for EVERY script and EVERY oracle: session->ref = other holders + number of subscriptions
+  add_observer_spec      coap_add_observer: found | NULL with subscriber list, reference count and ledger exactly as before
+                         | one new subscription, one more reference, exactly its four objects
+  deleteObserver_spec    coap_delete_observer: nothing | one subscription, its reference and its four objects gone
+  add_observer_succeeds_with_memory   all-true oracle: the registration succeeds
 -/
 namespace Coap.C18
 open Coap Coap.AllocOracle
@@ -518,6 +523,757 @@ theorem alloc_count_matches (h : Heap) :
         cases con <;> cases hw : s.writeOk <;> by_cases hc : s.conActive ≥ s.nstart <;>
           cases r <;> simp [hc, hreq, pduDelete, Heap.free]
 
+/-! ## Observe registrations (coap_add_observer / coap_delete_observer): ledger invariant -/
+
+theorem replays_pduDelete (p : OPdu) (h : Heap) (hr : h.Replays) : (pduDelete p h).Replays :=
+  replays_free _ _ (replays_free _ _ hr)
+
+theorem replays_resize (p : OPdu) (n : Nat) (h : Heap) (hr : h.Replays) : (resize p n h).2.2.Replays := by
+  unfold resize
+  split
+  · split
+    · exact hr
+    · have := replays_realloc h p.bufId hr
+      cases hrr : h.realloc p.bufId with
+      | mk a h1 => rw [hrr] at this; cases a <;> exact this
+  · exact hr
+
+theorem replays_checkResize (p : OPdu) (n : Nat) (h : Heap) (hr : h.Replays) : (checkResize p n h).2.2.Replays := by
+  unfold checkResize
+  split
+  · simp only
+    split
+    · split
+      · exact hr
+      · exact replays_resize _ _ _ hr
+    · exact replays_resize _ _ _ hr
+  · exact hr
+
+theorem replays_pduInit (size : Nat) (h : Heap) (hr : h.Replays) : (pduInit size h).2.Replays := by
+  unfold pduInit
+  have ha := replays_alloc h hr
+  cases hal : h.alloc with
+  | mk a h1 =>
+    rw [hal] at ha
+    cases a with
+    | none => exact ha
+    | some pid =>
+      simp only
+      split
+      · exact replays_free _ _ ha
+      · have hb := replays_alloc h1 ha
+        cases hbl : h1.alloc with
+        | mk b h2 =>
+          rw [hbl] at hb
+          cases b with
+          | none => exact replays_free _ _ hb
+          | some bid => exact hb
+
+theorem replays_addToken (p : OPdu) (d : Bytes) (h : Heap) (hr : h.Replays) : (addToken p d h).2.2.Replays := by
+  unfold addToken
+  simp only
+  split
+  · exact hr
+  · split
+    · exact hr
+    · rename_i bias _
+      have := replays_checkResize p (d.length + bias) h hr
+      cases hcr : checkResize p (d.length + bias) h with
+      | mk rc rest =>
+        cases rest with
+        | mk p1 h1 => rw [hcr] at this; cases rc <;> exact this
+
+theorem replays_addData (p : OPdu) (d : Bytes) (h : Heap) (hr : h.Replays) : (addData p d h).2.2.Replays := by
+  unfold addData
+  split
+  · exact hr
+  · split
+    · exact hr
+    · have := replays_resize p (p.buf.length + d.length + 1) h hr
+      cases hcr : resize p (p.buf.length + d.length + 1) h with
+      | mk rc rest =>
+        cases rest with
+        | mk p1 h1 => rw [hcr] at this; cases rc <;> exact this
+
+theorem replays_pduDuplicate (old : OPdu) (sm : Nat) (tok : Bytes) (h : Heap) (hr : h.Replays) :
+    (pduDuplicate old sm tok h).2.Replays := by
+  unfold pduDuplicate
+  have hi := replays_pduInit (max old.maxSize sm) h hr
+  cases hpi : pduInit (max old.maxSize sm) h with
+  | mk a h1 =>
+    rw [hpi] at hi
+    cases a with
+    | none => exact hi
+    | some p =>
+      simp only
+      have ht := replays_addToken p tok h1 hi
+      split
+      · exact replays_pduDelete _ _ ht
+      · have hz := replays_resize (addToken p tok h1).2.1 ((optRegion old).length + etl (addToken p tok h1).2.1)
+          (addToken p tok h1).2.2 ht
+        split
+        · exact replays_pduDelete _ _ hz
+        · exact hz
+
+theorem replays_deriveKey (p : OPdu) (h : Heap) (hr : h.Replays) : (deriveKey p h).2.Replays := by
+  unfold deriveKey
+  split
+  · exact hr
+  · have := replays_alloc h hr
+    cases hal : h.alloc with
+    | mk a h1 => rw [hal] at this; cases a <;> exact this
+
+theorem replays_deleteObserver (tok : Bytes) (o : Obs) (h : Heap) (hr : h.Replays) : (deleteObserver tok o h).2.2.Replays := by
+  unfold deleteObserver
+  split
+  · exact hr
+  · simp only
+    unfold deleteObserverInternal
+    split
+    · exact hr
+    · exact replays_free _ _ (replays_free _ _ (replays_pduDelete _ _ hr))
+
+theorem replays_replaceStep (req : OPdu) (o : Obs) (h : Heap) (hr : h.Replays) : (replaceStep req o h).2.2.Replays := by
+  unfold replaceStep
+  have hk := replays_deriveKey req h hr
+  simp only
+  split
+  · split
+    · exact replays_deleteObserver _ _ _ hk
+    · exact hk
+  · exact hk
+
+theorem replays_freeKey (k1 : Option (Nat × KeyMat)) (h : Heap) (hr : h.Replays) : (freeKey k1 h).Replays := by
+  unfold freeKey
+  split
+  · exact replays_free _ _ hr
+  · exact hr
+
+theorem replays_copyPayload (req p : OPdu) (h : Heap) (hr : h.Replays) : (copyPayload req p h).2.2.Replays := by
+  unfold copyPayload
+  split
+  · exact replays_addData _ _ _ hr
+  · exact hr
+
+theorem replays_lateKey (req : OPdu) (k1 : Option (Nat × KeyMat)) (h : Heap) (hr : h.Replays) :
+    (lateKey req k1 h).2.Replays := by
+  unfold lateKey
+  split
+  · exact hr
+  · exact replays_deriveKey _ _ hr
+
+theorem replays_finishSub (req : OPdu) (tok : Bytes) (k1 : Option (Nat × KeyMat)) (o : Obs) (sid : Nat) (p : OPdu) (h : Heap)
+    (hr : h.Replays) : (finishSub req tok k1 o sid p h).2.2.Replays := by
+  unfold finishSub
+  have ha := replays_copyPayload req p h hr
+  generalize copyPayload req p h = a at ha
+  simp only
+  split
+  · exact replays_free _ _ (replays_freeKey _ _ (replays_pduDelete _ _ ha))
+  · have hk := replays_lateKey req k1 a.2.2 ha
+    generalize lateKey req k1 a.2.2 = k2 at hk
+    split
+    · exact replays_free _ _ (replays_pduDelete _ _ hk)
+    · exact hk
+
+theorem replays_createSub (req : OPdu) (sm : Nat) (tok : Bytes) (k1 : Option (Nat × KeyMat)) (o : Obs) (h : Heap)
+    (hr : h.Replays) : (createSub req sm tok k1 o h).2.2.Replays := by
+  unfold createSub
+  have ha := replays_alloc h hr
+  cases hal : h.alloc with
+  | mk a h2 =>
+    rw [hal] at ha
+    cases a with
+    | none => exact replays_freeKey _ _ ha
+    | some sid =>
+      simp only
+      have hd := replays_pduDuplicate req sm tok h2 ha
+      cases hdu : pduDuplicate req sm tok h2 with
+      | mk d h3 =>
+        rw [hdu] at hd
+        cases d with
+        | none => exact replays_free _ _ (replays_freeKey _ _ hd)
+        | some p => exact replays_finishSub _ _ _ _ _ _ _ hd
+
+theorem replays_addObserver (req : OPdu) (sm : Nat) (tok : Bytes) (o : Obs) (h : Heap) (hr : h.Replays) :
+    (addObserver req sm tok o h).2.2.Replays := by
+  unfold addObserver
+  split
+  · exact hr
+  · exact replays_createSub _ _ _ _ _ _ (replays_replaceStep _ _ _ hr)
+
+/-! ## Observe registrations: the reference count and the ledger under ANY oracle -/
+
+/-- `session->ref` = the other holders of the session + the number of subscriptions (each holds exactly one reference) -/
+def ObsBal (base : Nat) (o : Obs) : Prop := o.ref = base + o.subs.length
+
+/-- `coap_delete_observer`: 0 = nothing changes; 1 = one subscription fewer, its reference given back, and its four
+objects (request copy: buffer + header, cache key, subscription) released, in this order, nothing else -/
+theorem deleteObserver_spec (tok : Bytes) (o : Obs) (h : Heap) :
+    ((deleteObserver tok o h).1 = 0 ∧ (deleteObserver tok o h).2.1 = o ∧ (deleteObserver tok o h).2.2 = h) ∨
+    (∃ s ∈ o.subs, s.tok = tok ∧ (deleteObserver tok o h).1 = 1 ∧
+      (deleteObserver tok o h).2.1.ref = o.ref - 1 ∧
+      (deleteObserver tok o h).2.1.subs.length = o.subs.length - 1 ∧
+      (deleteObserver tok o h).2.2 = ((pduDelete s.pdu h).free s.keyId).free s.id) := by
+  unfold deleteObserver
+  split
+  · left; exact ⟨rfl, rfl, rfl⟩
+  · rename_i s hs
+    right
+    have hm := List.mem_of_find?_eq_some hs
+    have ht : s.tok = tok := by have := List.find?_some hs; simpa using this
+    have hne : o.subs.isEmpty = false := by
+      cases ho : o.subs with
+      | nil => rw [ho] at hm; cases hm
+      | cons a r => rfl
+    refine ⟨s, hm, ht, rfl, ?_, ?_, ?_⟩ <;> simp only [deleteObserverInternal, hne] <;> simp
+    exact List.length_eraseP_of_mem hm (by simp)
+
+theorem deleteObserver_balanced (base : Nat) (tok : Bytes) (o : Obs) (h : Heap) (hb : ObsBal base o) :
+    ObsBal base (deleteObserver tok o h).2.1 := by
+  rcases deleteObserver_spec tok o h with ⟨_, ho, _⟩ | ⟨s, hm, _, _, hr, hl, _⟩
+  · rw [ho]; exact hb
+  · unfold ObsBal at *
+    have : o.subs.length ≥ 1 := List.length_pos_of_mem hm
+    omega
+
+/-- the PDU's two blocks are the two newest live objects, on top of `L` -/
+def Owns (p : OPdu) (L live : List Nat) : Prop := live = p.bufId :: p.id :: L
+
+theorem owns_delete (p : OPdu) (L : List Nat) (h : Heap) (ho : Owns p L h.live) : (pduDelete p h).live = L := by
+  unfold Owns at ho
+  simp [pduDelete, Heap.free, ho]
+
+theorem owns_resize (p : OPdu) (n : Nat) (h : Heap) (L : List Nat) (ho : Owns p L h.live) :
+    Owns (resize p n h).2.1 L (resize p n h).2.2.live := by
+  have hs := resize_spec p n h
+  by_cases hz : (resize p n h).1 = 0
+  · have := hs.1 hz
+    unfold Owns at *
+    rw [this.1, this.2.1]; exact ho
+  · obtain ⟨_, _, hid, _, _, _, _, _, hl⟩ := hs.2 hz
+    unfold Owns at *
+    rcases hl with ⟨hl, hb⟩ | hl
+    · rw [hl, hb, hid]; exact ho
+    · rw [hl, hid, ho]; simp
+
+theorem owns_checkResize (p : OPdu) (n : Nat) (h : Heap) (L : List Nat) (ho : Owns p L h.live) :
+    Owns (checkResize p n h).2.1 L (checkResize p n h).2.2.live := by
+  have hs := checkResize_spec p n h
+  by_cases hz : (checkResize p n h).1 = 0
+  · have := hs.1 hz
+    unfold Owns at *
+    rw [this.1, this.2.1]; exact ho
+  · obtain ⟨_, _, hid, _, _, _, _, hl⟩ := hs.2 hz
+    unfold Owns at *
+    rcases hl with ⟨hl, hb⟩ | hl
+    · rw [hl, hb, hid]; exact ho
+    · rw [hl, hid, ho]; simp
+
+theorem owns_addToken (p : OPdu) (d : Bytes) (h : Heap) (L : List Nat) (ho : Owns p L h.live) :
+    Owns (addToken p d h).2.1 L (addToken p d h).2.2.live := by
+  unfold addToken
+  simp only
+  split
+  · exact ho
+  · split
+    · exact ho
+    · rename_i bias _
+      have hc := owns_checkResize p (d.length + bias) h L ho
+      by_cases hz : (checkResize p (d.length + bias) h).1 = 0
+      · simp only [hz, if_true]
+        have := (checkResize_spec p (d.length + bias) h).1 hz
+        unfold Owns at *
+        rw [this.2.1]; exact ho
+      · simp only [hz, if_false]
+        exact hc
+
+theorem owns_addData (p : OPdu) (d : Bytes) (h : Heap) (L : List Nat) (ho : Owns p L h.live) :
+    Owns (addData p d h).2.1 L (addData p d h).2.2.live := by
+  unfold addData
+  split
+  · exact ho
+  · split
+    · exact ho
+    · have hc := owns_resize p (p.buf.length + d.length + 1) h L ho
+      simp only
+      by_cases hz : (resize p (p.buf.length + d.length + 1) h).1 = 0
+      · simp only [hz, if_true]
+        have := (resize_spec p (p.buf.length + d.length + 1) h).1 hz
+        unfold Owns at *
+        rw [this.2.1]; exact ho
+      · simp only [hz, if_false]
+        exact hc
+
+/-- `coap_pdu_duplicate_lkd`: NULL leaves the ledger as it was (whichever of its up to four requests failed); a copy owns
+exactly two new blocks -/
+theorem pduDuplicate_live (old : OPdu) (sm : Nat) (tok : Bytes) (h : Heap) :
+    ((pduDuplicate old sm tok h).1 = none → (pduDuplicate old sm tok h).2.live = h.live) ∧
+    (∀ p, (pduDuplicate old sm tok h).1 = some p → Owns p h.live (pduDuplicate old sm tok h).2.live) := by
+  unfold pduDuplicate
+  have hi := pduInit_ledger (max old.maxSize sm) h
+  cases hpi : pduInit (max old.maxSize sm) h with
+  | mk a h1 =>
+    rw [hpi] at hi
+    cases a with
+    | none => exact ⟨fun _ => hi.1 rfl, fun p hp => by simp at hp⟩
+    | some p0 =>
+      have h0 : Owns p0 h.live h1.live := (hi.2 p0 rfl).1
+      simp only
+      have ht := owns_addToken p0 tok h1 h.live h0
+      split
+      · exact ⟨fun _ => owns_delete _ _ _ ht, fun p hp => by simp at hp⟩
+      · have hz := owns_resize (addToken p0 tok h1).2.1 ((optRegion old).length + etl (addToken p0 tok h1).2.1)
+          (addToken p0 tok h1).2.2 h.live ht
+        split
+        · exact ⟨fun _ => owns_delete _ _ _ hz, fun p hp => by simp at hp⟩
+        · refine ⟨fun hn => by simp at hn, fun p hp => ?_⟩
+          simp only [Option.some.injEq] at hp
+          subst hp
+          exact hz
+
+/-- the key derived before the subscription is created, if any, is the newest live object; serials are fresh -/
+def KeyHeld (k1 : Option (Nat × KeyMat)) (L : List Nat) (h : Heap) : Prop :=
+  (match k1 with
+   | some (k, _) => h.live = k :: L
+   | none => h.live = L) ∧ ∀ i ∈ h.live, i < h.next
+
+theorem deriveKey_live (p : OPdu) (h : Heap) :
+    ((deriveKey p h).1 = none → (deriveKey p h).2.live = h.live) ∧
+    (∀ k km, (deriveKey p h).1 = some (k, km) → (deriveKey p h).2.live = k :: h.live ∧ k = h.next ∧
+      (deriveKey p h).2.next = h.next + 1 ∧ keyOf p = some km) := by
+  unfold deriveKey
+  split
+  · exact ⟨fun _ => rfl, fun k km hk => by simp at hk⟩
+  · rename_i km0 hkm
+    cases ha : h.alloc with
+    | mk a h1 =>
+      cases a with
+      | none =>
+        have := alloc_fail_live h (by rw [ha]); rw [ha] at this
+        exact ⟨fun _ => this.1, fun k km hk => by simp at hk⟩
+      | some i =>
+        have hl := alloc_ok_live h i (by rw [ha]); rw [ha] at hl
+        refine ⟨fun hn => by simp at hn, fun k km hk => ?_⟩
+        simp only [Option.some.injEq, Prod.mk.injEq] at hk
+        obtain ⟨rfl, rfl⟩ := hk
+        refine ⟨hl.2, hl.1, ?_, hkm⟩
+        unfold Heap.alloc at ha
+        split at ha <;> simp_all
+        rw [← ha]
+
+theorem alloc_next_ge (h : Heap) : h.next ≤ h.alloc.2.next := by
+  unfold Heap.alloc; split <;> simp
+
+theorem deriveKey_next_ge (p : OPdu) (h : Heap) : h.next ≤ (deriveKey p h).2.next := by
+  unfold deriveKey
+  split
+  · exact Nat.le_refl _
+  · have := alloc_next_ge h
+    cases ha : h.alloc with
+    | mk a h1 => rw [ha] at this; cases a <;> exact this
+
+/-- what the second half of `coap_add_observer` does to the subscriber list, the reference count and the ledger, for EVERY
+oracle: either NULL, and then subscriber list, reference count and ledger are what they were before the call (the key
+derived before, if any, has been released as well): nothing leaks, no reference is kept;
+or a new subscription at the head of the list, ONE more reference, and exactly its four objects added to the ledger. -/
+theorem createSub_spec (req : OPdu) (sm : Nat) (tok : Bytes) (k1 : Option (Nat × KeyMat)) (o : Obs) (h : Heap)
+    (L : List Nat) (hk : KeyHeld k1 L h) :
+    ((createSub req sm tok k1 o h).1 = none ∧ (createSub req sm tok k1 o h).2.1 = o ∧
+      (createSub req sm tok k1 o h).2.2.live = L) ∨
+    (∃ s : Sub, (createSub req sm tok k1 o h).1 = some s.id ∧ s.tok = tok ∧
+      (createSub req sm tok k1 o h).2.1 = { ref := o.ref + 1, subs := s :: o.subs } ∧
+      ((createSub req sm tok k1 o h).2.2.live = s.pdu.bufId :: s.pdu.id :: s.id :: s.keyId :: L ∨
+       (createSub req sm tok k1 o h).2.2.live = s.keyId :: s.pdu.bufId :: s.pdu.id :: s.id :: L)) := by
+  obtain ⟨hkl, hfresh⟩ := hk
+  unfold createSub
+  cases ha : h.alloc with
+  | mk a h2 =>
+    cases a with
+    | none =>
+      left
+      have hl := (alloc_fail_live h (by rw [ha])).1; rw [ha] at hl
+      simp only at hl ⊢
+      refine ⟨by simp, by simp, ?_⟩
+      cases k1 with
+      | none => simp only [freeKey]; rw [hl]; exact hkl
+      | some kk => obtain ⟨k, km⟩ := kk; simp only [freeKey, Heap.free] at hkl ⊢; rw [hl, hkl]; simp
+    | some sid =>
+      have hl := alloc_ok_live h sid (by rw [ha]); rw [ha] at hl
+      obtain ⟨hsid, hl2⟩ := hl
+      simp only at hl2 ⊢
+      -- the subscription's serial is not the key's
+      have hne : ∀ k km, k1 = some (k, km) → sid ≠ k := by
+        intro k km hk1
+        subst hk1
+        simp only at hkl
+        have := hfresh k (by rw [hkl]; simp)
+        omega
+      have hd := pduDuplicate_live req sm tok h2
+      cases hdu : pduDuplicate req sm tok h2 with
+      | mk d h3 =>
+        rw [hdu] at hd
+        cases d with
+        | none =>
+          left
+          have hl3 : h3.live = h2.live := hd.1 rfl
+          refine ⟨rfl, rfl, ?_⟩
+          cases k1 with
+          | none => simp only [freeKey, Heap.free]; rw [hl3, hl2]; simp only at hkl; rw [hkl]; simp
+          | some kk =>
+            obtain ⟨k, km⟩ := kk
+            have := hne k km rfl
+            simp only at hkl
+            simp only [freeKey, Heap.free]; rw [hl3, hl2, hkl]
+            simp [this]
+        | some p =>
+          have hown : Owns p h2.live h3.live := hd.2 p rfl
+          simp only
+          unfold finishSub
+          -- payload copy
+          have hcp : Owns (copyPayload req p h3).2.1 h2.live (copyPayload req p h3).2.2.live := by
+            unfold copyPayload
+            split
+            · exact owns_addData _ _ _ _ hown
+            · exact hown
+          generalize copyPayload req p h3 = a at hcp
+          simp only
+          split
+          · left
+            refine ⟨rfl, rfl, ?_⟩
+            have hdl := owns_delete _ _ _ hcp
+            cases k1 with
+            | none => simp only [freeKey, Heap.free]; rw [hdl, hl2]; simp only at hkl; rw [hkl]; simp
+            | some kk =>
+              obtain ⟨k, km⟩ := kk
+              have := hne k km rfl
+              simp only at hkl
+              simp only [freeKey, Heap.free]; rw [hdl, hl2, hkl]
+              simp [this]
+          · cases k1 with
+            | some kk =>
+              obtain ⟨k, km⟩ := kk
+              right
+              simp only [lateKey]
+              simp only at hkl
+              refine ⟨⟨sid, a.2.1, k, km, tok⟩, rfl, rfl, rfl, Or.inl ?_⟩
+              unfold Owns at hcp
+              rw [hcp, hl2, hkl]
+            | none =>
+              simp only [lateKey]
+              have hdk := deriveKey_live req a.2.2
+              cases hdr : deriveKey req a.2.2 with
+              | mk kk h5 =>
+                rw [hdr] at hdk
+                cases kk with
+                | none =>
+                  left
+                  simp only
+                  refine ⟨by simp, by simp, ?_⟩
+                  have h5l : h5.live = a.2.2.live := hdk.1 rfl
+                  have hdl := owns_delete a.2.1 h2.live h5 (by unfold Owns at *; rw [h5l]; exact hcp)
+                  simp only at hkl
+                  simp only [Heap.free]; rw [hdl, hl2, hkl]; simp
+                | some kk2 =>
+                  obtain ⟨kid, km⟩ := kk2
+                  right
+                  have h5l := (hdk.2 kid km rfl).1
+                  simp only at hkl h5l ⊢
+                  refine ⟨⟨sid, a.2.1, kid, km, tok⟩, rfl, rfl, rfl, Or.inr ?_⟩
+                  unfold Owns at hcp
+                  rw [h5l, hcp, hl2, hkl]
+
+/-- the subscriber list and the reference count after the second half of `coap_add_observer`, for every heap and oracle:
+unchanged with NULL, or one more subscription AND one more reference -/
+theorem createSub_obs (req : OPdu) (sm : Nat) (tok : Bytes) (k1 : Option (Nat × KeyMat)) (o : Obs) (h : Heap) :
+    ((createSub req sm tok k1 o h).1 = none ∧ (createSub req sm tok k1 o h).2.1 = o) ∨
+    (∃ s : Sub, (createSub req sm tok k1 o h).1 = some s.id ∧ s.tok = tok ∧
+      (createSub req sm tok k1 o h).2.1 = { ref := o.ref + 1, subs := s :: o.subs }) := by
+  unfold createSub
+  cases ha : h.alloc with
+  | mk a h2 =>
+    cases a with
+    | none => left; exact ⟨rfl, rfl⟩
+    | some sid =>
+      simp only
+      cases hdu : pduDuplicate req sm tok h2 with
+      | mk d h3 =>
+        cases d with
+        | none => left; exact ⟨rfl, rfl⟩
+        | some p =>
+          simp only
+          unfold finishSub
+          generalize copyPayload req p h3 = a
+          simp only
+          split
+          · left; exact ⟨rfl, rfl⟩
+          · generalize lateKey req k1 a.2.2 = k2
+            split
+            · left; exact ⟨rfl, rfl⟩
+            · rename_i kid km _
+              right
+              exact ⟨⟨sid, a.2.1, kid, km, tok⟩, rfl, rfl, rfl⟩
+
+/-- the first half: the key is derived (or not) and at most one subscription is deleted — through `coap_delete_observer` -/
+theorem replaceStep_obs (req : OPdu) (o : Obs) (h : Heap) :
+    (replaceStep req o h).2.1 = o ∨ ∃ t h', (replaceStep req o h).2.1 = (deleteObserver t o h').2.1 := by
+  unfold replaceStep
+  simp only
+  split
+  · split
+    · right; exact ⟨_, _, rfl⟩
+    · left; rfl
+  · left; rfl
+
+theorem addObserver_balanced (base : Nat) (req : OPdu) (sm : Nat) (tok : Bytes) (o : Obs) (h : Heap) (hb : ObsBal base o) :
+    ObsBal base (addObserver req sm tok o h).2.1 := by
+  unfold addObserver
+  split
+  · exact hb
+  · simp only
+    have h1 : ObsBal base (replaceStep req o h).2.1 := by
+      rcases replaceStep_obs req o h with he | ⟨t, h', he⟩
+      · rw [he]; exact hb
+      · rw [he]; exact deleteObserver_balanced base t o h' hb
+    rcases createSub_obs req sm tok (replaceStep req o h).1 (replaceStep req o h).2.1 (replaceStep req o h).2.2 with
+      ⟨_, he⟩ | ⟨s, _, _, he⟩
+    · rw [he]; exact h1
+    · rw [he]; unfold ObsBal at *; simp only [List.length_cons]; omega
+
+/-- **add_observer_spec** — `coap_add_observer` for EVERY oracle (any pattern of failing requests: the cache key, the
+subscription, the two blocks of the request copy, growing the copy for the token / the options / the payload, the key
+again), when no subscription of the session is replaced (none has the request's cache key): exactly one of
+  (found)   a subscription with this token exists: it is returned, nothing changes, no request is made;
+  (NULL)    the subscriber list, the session's reference count AND the ledger are exactly what they were: no reference
+            is kept (C18-5: the reference is taken after the last step that can fail), nothing leaks;
+  (new)     a new subscription with this token at the head of the list, ONE more reference, and exactly four more live
+            objects: the copy's buffer and header, the subscription, the cache key. -/
+theorem add_observer_spec (req : OPdu) (sm : Nat) (tok : Bytes) (o : Obs) (h : Heap)
+    (hfresh : ∀ i ∈ h.live, i < h.next)
+    (hnokey : ∀ km, keyOf req = some km → o.subs.find? (fun x => x.key == km) = none) :
+    (∃ s ∈ o.subs, s.tok = tok ∧ addObserver req sm tok o h = (some s.id, o, h)) ∨
+    ((addObserver req sm tok o h).1 = none ∧ (addObserver req sm tok o h).2.1 = o ∧
+      (addObserver req sm tok o h).2.2.live = h.live) ∨
+    (∃ s : Sub, (addObserver req sm tok o h).1 = some s.id ∧ s.tok = tok ∧
+      (addObserver req sm tok o h).2.1 = { ref := o.ref + 1, subs := s :: o.subs } ∧
+      ((addObserver req sm tok o h).2.2.live = s.pdu.bufId :: s.pdu.id :: s.id :: s.keyId :: h.live ∨
+       (addObserver req sm tok o h).2.2.live = s.keyId :: s.pdu.bufId :: s.pdu.id :: s.id :: h.live)) := by
+  unfold addObserver
+  split
+  · rename_i s hs
+    left
+    have ht : s.tok = tok := by have := List.find?_some hs; simpa using this
+    exact ⟨s, List.mem_of_find?_eq_some hs, ht, rfl⟩
+  · right
+    simp only
+    -- the first half only derives the key
+    have hdk := deriveKey_live req h
+    have hrs : (replaceStep req o h).2.1 = o ∧ (replaceStep req o h).2.2 = (deriveKey req h).2 ∧
+        (replaceStep req o h).1 = (deriveKey req h).1 := by
+      unfold replaceStep
+      simp only
+      cases hk : (deriveKey req h).1 with
+      | none => exact ⟨rfl, rfl, rfl⟩
+      | some kk =>
+        obtain ⟨k, km⟩ := kk
+        simp only
+        have := hnokey km (hdk.2 k km hk).2.2.2
+        rw [this]
+        exact ⟨rfl, rfl, rfl⟩
+    have hheld : KeyHeld (replaceStep req o h).1 h.live (replaceStep req o h).2.2 := by
+      rw [hrs.2.1, hrs.2.2]
+      cases hk : (deriveKey req h).1 with
+      | none =>
+        have hl := hdk.1 hk
+        refine ⟨hl, ?_⟩
+        intro i hi
+        rw [hl] at hi
+        have : (deriveKey req h).2.next ≥ h.next := deriveKey_next_ge req h
+        have := hfresh i hi
+        omega
+      | some kk =>
+        obtain ⟨k, km⟩ := kk
+        obtain ⟨hl, hkn, hnx, _⟩ := hdk.2 k km hk
+        refine ⟨hl, ?_⟩
+        intro i hi
+        rw [hl] at hi
+        rw [hnx]
+        rcases List.mem_cons.mp hi with he | hm
+        · omega
+        · have := hfresh i hm; omega
+    have := createSub_spec req sm tok (replaceStep req o h).1 (replaceStep req o h).2.1 (replaceStep req o h).2.2 h.live hheld
+    rw [hrs.1] at this ⊢
+    exact this
+
+/-! ## with memory available a registration succeeds -/
+
+theorem resize_orc (p : OPdu) (n : Nat) (h : Heap) (ho : AllTrue h.orc) : AllTrue (resize p n h).2.2.orc := by
+  unfold resize
+  split
+  · split
+    · exact ho
+    · have := (realloc_allTrue h p.bufId ho).2
+      cases hr : h.realloc p.bufId with
+      | mk r h1 => rw [hr] at this; cases r <;> exact this
+  · exact ho
+
+theorem checkResize_orc (p : OPdu) (n : Nat) (h : Heap) (ho : AllTrue h.orc) : AllTrue (checkResize p n h).2.2.orc := by
+  unfold checkResize
+  split
+  · simp only
+    split
+    · split
+      · exact ho
+      · exact resize_orc _ _ _ ho
+    · exact resize_orc _ _ _ ho
+  · exact ho
+
+theorem checkResize_allTrue (p : OPdu) (n : Nat) (h : Heap) (ho : AllTrue h.orc) (hfit : p.maxSize = 0 ∨ n ≤ p.maxSize) :
+    (checkResize p n h).1 = 1 := by
+  unfold checkResize
+  split
+  · simp only
+    split
+    · rename_i hbig
+      split
+      · omega
+      · exact resize_allTrue p p.maxSize h ho (Or.inr (Nat.le_refl _))
+    · rename_i hsmall
+      exact resize_allTrue p _ h ho (by omega)
+  · rfl
+
+/-- `coap_add_token` on a fresh PDU with memory available: succeeds when the token fits `max_size` -/
+theorem addToken_allTrue (p : OPdu) (d : Bytes) (h : Heap) (ho : AllTrue h.orc) (b : Nat) (hemp : p.buf = [])
+    (hb : M.tokBias d.length = some b) (hfit : p.maxSize = 0 ∨ d.length + b ≤ p.maxSize) :
+    (addToken p d h).1 = 1 ∧ AllTrue (addToken p d h).2.2.orc ∧ (addToken p d h).2.1.maxSize = p.maxSize ∧
+    (addToken p d h).2.1.tokLen = d.length ∧ (addToken p d h).2.1.data = none := by
+  unfold addToken
+  simp only [hemp, List.length_nil, ne_eq, not_true_eq_false, if_false, hb]
+  have h1 := checkResize_allTrue p (d.length + b) h ho hfit
+  have h2 := checkResize_orc p (d.length + b) h ho
+  have h3 := (checkResize_spec p (d.length + b) h).2 (by omega)
+  simp only [h1, Nat.succ_ne_zero, if_false]
+  exact ⟨trivial, h2, h3.2.2.2.2.2.1, trivial, trivial⟩
+
+theorem pduInit_allTrue (size : Nat) (h : Heap) (ho : AllTrue h.orc) (hs : size ≤ 8388864 - 6) :
+    ∃ p, (pduInit size h).1 = some p ∧ AllTrue (pduInit size h).2.orc ∧ p.maxSize = size ∧ p.buf = [] := by
+  unfold pduInit
+  have ha := alloc_allTrue h ho
+  cases hr : h.alloc with
+  | mk r h1 =>
+    rw [hr] at ha
+    simp only at ha
+    obtain ⟨ha1, ha2⟩ := ha
+    subst ha1
+    simp only
+    have : ¬ size > 8388864 - 6 := by omega
+    simp only [this, if_false]
+    have hb := alloc_allTrue h1 ha2
+    cases hr2 : h1.alloc with
+    | mk r2 h2 =>
+      rw [hr2] at hb
+      simp only at hb
+      rw [hb.1]
+      exact ⟨_, rfl, hb.2, rfl, rfl⟩
+
+theorem pduDuplicate_allTrue (old : OPdu) (sm : Nat) (tok : Bytes) (h : Heap) (ho : AllTrue h.orc) (b : Nat)
+    (hsize : max old.maxSize sm ≤ 8388864 - 6) (hb : M.tokBias tok.length = some b)
+    (hfit : (optRegion old).length + tok.length + b ≤ max old.maxSize sm) :
+    ∃ p, (pduDuplicate old sm tok h).1 = some p ∧ AllTrue (pduDuplicate old sm tok h).2.orc ∧ p.data = none := by
+  unfold pduDuplicate
+  obtain ⟨p0, hp0, ho1, hmax, hemp⟩ := pduInit_allTrue (max old.maxSize sm) h ho hsize
+  cases hpi : pduInit (max old.maxSize sm) h with
+  | mk a h1 =>
+    rw [hpi] at hp0 ho1
+    simp only at hp0 ho1
+    subst hp0
+    simp only
+    obtain ⟨t1, to, tmax, ttok, tdata⟩ := addToken_allTrue p0 tok h1 ho1 b hemp hb (by omega)
+    simp only [t1, Nat.succ_ne_zero, if_false]
+    have hetl : etl (addToken p0 tok h1).2.1 = tok.length + b := by
+      unfold etl; rw [ttok, hb]
+    have hr1 := resize_allTrue (addToken p0 tok h1).2.1 ((optRegion old).length + etl (addToken p0 tok h1).2.1)
+      (addToken p0 tok h1).2.2 to (by rw [tmax, hmax, hetl]; omega)
+    have hro := resize_orc (addToken p0 tok h1).2.1 ((optRegion old).length + etl (addToken p0 tok h1).2.1)
+      (addToken p0 tok h1).2.2 to
+    have hrs := (resize_spec (addToken p0 tok h1).2.1 ((optRegion old).length + etl (addToken p0 tok h1).2.1)
+      (addToken p0 tok h1).2.2).2 (by omega)
+    simp only [hr1, Nat.succ_ne_zero, if_false]
+    exact ⟨_, rfl, hro, by simp only; rw [hrs.2.2.2.2.1, tdata]⟩
+
+theorem addData_allTrue (p : OPdu) (d : Bytes) (h : Heap) (ho : AllTrue h.orc) (hmax : p.maxSize = 0) (hd : p.data = none) :
+    (addData p d h).1 = 1 := by
+  unfold addData
+  split
+  · rfl
+  · split
+    · rename_i hs; rw [hd] at hs; simp at hs
+    · have hr := resize_allTrue p (p.buf.length + d.length + 1) h ho (Or.inl hmax)
+      simp only [hr, Nat.succ_ne_zero, if_false]
+
+theorem deleteObserver_orc (tok : Bytes) (o : Obs) (h : Heap) : (deleteObserver tok o h).2.2.orc = h.orc := by
+  unfold deleteObserver
+  split
+  · rfl
+  · simp only [deleteObserverInternal]
+    split <;> rfl
+
+theorem deriveKey_allTrue (p : OPdu) (h : Heap) (ho : AllTrue h.orc) (km : KeyMat) (hk : keyOf p = some km) :
+    (deriveKey p h).1 = some (h.next, km) ∧ AllTrue (deriveKey p h).2.orc := by
+  unfold deriveKey
+  rw [hk]
+  have ha := alloc_allTrue h ho
+  cases hr : h.alloc with
+  | mk r h1 => rw [hr] at ha; simp only at ha ⊢; rw [ha.1]; exact ⟨rfl, ha.2⟩
+
+/-- **add_observer_succeeds_with_memory** — once memory is available again (an all-true oracle, the exhausted one in
+particular) `coap_add_observer` returns a subscription, provided the request has something to derive a key from (at least
+one option or a payload) and the token and the options fit the size limit of the copy.  With `observer_refs_balanced`:
+the failed registration left nothing behind that makes the next one fail. -/
+theorem add_observer_succeeds_with_memory (req : OPdu) (sm : Nat) (tok : Bytes) (o : Obs) (h : Heap) (ho : AllTrue h.orc)
+    (km : KeyMat) (hkey : keyOf req = some km) (b : Nat) (hb : M.tokBias tok.length = some b)
+    (hsize : max req.maxSize sm ≤ 8388864 - 6)
+    (hfit : (optRegion req).length + tok.length + b ≤ max req.maxSize sm) :
+    (addObserver req sm tok o h).1.isSome = true := by
+  unfold addObserver
+  split
+  · rfl
+  · simp only
+    -- first half: the key is derived
+    obtain ⟨hk1, hko⟩ := deriveKey_allTrue req h ho km hkey
+    have hrs : (replaceStep req o h).1 = some (h.next, km) ∧ AllTrue (replaceStep req o h).2.2.orc := by
+      unfold replaceStep
+      simp only [hk1]
+      split
+      · exact ⟨rfl, by rw [deleteObserver_orc]; exact hko⟩
+      · exact ⟨rfl, hko⟩
+    generalize replaceStep req o h = r at hrs
+    obtain ⟨hr1, hro⟩ := hrs
+    unfold createSub
+    have ha := alloc_allTrue r.2.2 hro
+    cases hal : r.2.2.alloc with
+    | mk a h2 =>
+      rw [hal] at ha
+      simp only at ha
+      obtain ⟨ha1, ha2⟩ := ha
+      subst ha1
+      simp only
+      obtain ⟨p, hp, hpo, hpd⟩ := pduDuplicate_allTrue req sm tok h2 ha2 b hsize hb hfit
+      cases hdu : pduDuplicate req sm tok h2 with
+      | mk d h3 =>
+        rw [hdu] at hp hpo
+        simp only at hp hpo
+        subst hp
+        simp only
+        unfold finishSub
+        have hcp : (copyPayload req p h3).1 = 1 := by
+          unfold copyPayload
+          split
+          · exact addData_allTrue _ _ _ hpo rfl hpd
+          · rfl
+        simp only [hcp, Nat.succ_ne_zero, if_false, lateKey, hr1]
+        rfl
+
 /-! ## whole scripts -/
 
 /-- non-vacuity and a concrete run: a script under the oracle that fails the 3rd request; the buffer cannot be
@@ -754,6 +1510,68 @@ theorem script_ledger_ok (st : St) (ops : List HOp) (hr : st.heap.Replays) :
                   | none => exact rp_del p _ ha
                   | some n => exact ha
     | write ok => exact hr
+    | obsAdd toklen =>
+      unfold St.step
+      cases hp : st.pdu with
+      | none => exact hr
+      | some p => exact replays_addObserver p SESS_MAX_PDU (pattern toklen) st.obs st.heap hr
+    | obsDel toklen => exact replays_deleteObserver (pattern toklen) st.obs st.heap hr
+
+/-- **observer_refs_balanced** — for EVERY script and EVERY oracle: the server session's reference count is the number of
+its other holders plus the number of subscriptions, in every reachable state.  Whatever request fails inside
+coap_add_observer (or anywhere else), no reference is left without a subscription holding it (the session would never be
+reclaimed as idle) and no subscription without its reference (use after free when the idle session is reclaimed). -/
+theorem observer_refs_balanced (base : Nat) (st : St) (ops : List HOp) (hb : ObsBal base st.obs) :
+    ObsBal base (st.run ops).2.obs := by
+  induction ops generalizing st with
+  | nil => exact hb
+  | cons op r ih =>
+    unfold St.run
+    simp only
+    apply ih
+    cases op with
+    | obsAdd toklen =>
+      unfold St.step
+      cases hp : st.pdu with
+      | none => exact hb
+      | some p => exact addObserver_balanced base p SESS_MAX_PDU (pattern toklen) st.obs st.heap hb
+    | obsDel toklen => exact deleteObserver_balanced base (pattern toklen) st.obs st.heap hb
+    | _ =>
+      -- no other op touches the subscriber list or the reference count
+      simp only [St.step]
+      (repeat' split) <;> exact hb
+
+/-- a script that starts with no subscription and an unreferenced session: `ref` IS the number of subscriptions -/
+theorem observer_refs_count (orc : Oracle) (ops : List HOp) :
+    ((St.init orc).run ops).2.obs.ref = ((St.init orc).run ops).2.obs.subs.length := by
+  have := observer_refs_balanced 0 (St.init orc) ops (by simp [ObsBal, St.init])
+  simpa [ObsBal] using this
+
+/-- non-vacuity: registration of the request `GET Observe /123` under token 01 02 while request 5 (the header object of the
+request copy) fails — NULL, no reference, nothing live beyond the script's PDU; again with memory available — registered,
+one reference; the same request under token 01 02 03 replaces it (still one reference); deleted — none. -/
+example :
+    let st := (St.init (oracleFailing 5 0 5)).run
+      [.init 1152, .token 4, .option 6 0, .option 11 3, .obsAdd 2, .obsAdd 2, .obsAdd 2, .obsAdd 3, .obsDel 2, .obsDel 3]
+    st.1 = [.num 1, .num 1, .num 1, .num 4, .num 0, .num 1, .num 1, .num 1, .num 0, .num 1] ∧
+    st.2.obs.ref = 0 ∧ st.2.obs.subs = [] ∧ ledgerOk st.2.cleanup.heap.trace = true := by decide
+
+example :
+    let st := (St.init (oracleFailing 5 0 5)).run [.init 1152, .token 4, .option 6 0, .option 11 3, .obsAdd 2]
+    st.2.obs.ref = 0 ∧ st.2.heap.live.length = 2 ∧ st.2.heap.reqs = 5 := by decide
+
+example :
+    let st := (St.init []).run [.init 1152, .token 4, .option 6 0, .option 11 3, .data 5, .obsAdd 2, .obsAdd 3]
+    st.2.obs.ref = 1 ∧ (st.2.obs.subs.map (·.tok.length)) = [3] ∧ st.2.heap.live.length = 6 := by decide
+
+/-- non-vacuity of the hypotheses of `add_observer_spec` / `add_observer_succeeds_with_memory`: a state with live objects
+whose serials are fresh, and a request whose cache key material is its Uri-Path (Observe is not part of the key) -/
+example :
+    let st := ((St.init (oracleFailing 5 0 5)).run [.init 1152, .token 4, .option 6 0, .option 11 3]).2
+    (∀ i ∈ st.heap.live, i < st.heap.next) ∧ st.heap.live.length = 2 ∧
+    st.pdu.bind keyOf = some [(11, [1, 2, 3])] ∧
+    (st.pdu.map fun p => decide ((optRegion p).length + 2 ≤ max p.maxSize SESS_MAX_PDU)) = some true ∧
+    M.tokBias 2 = some 0 := by decide
 
 /-- consequence: the monitor's verdict on the trace of ANY script under ANY oracle is read off the model's ledger -/
 theorem script_verdict (orc : Oracle) (ops : List HOp) :
